@@ -190,6 +190,9 @@ def main(argv=None):
     a = ap.parse_args(argv)
     res = {}
     try:
+        import resource
+        lim = int(float(os.environ.get("VERIF_WORKER_MEM_GB", "3.5")) * (1 << 30))
+        resource.setrlimit(resource.RLIMIT_AS, (lim, lim))   # runaway allocations in the code under test fail instead of thrashing
         bootstrap.setup()
         mod = importlib.import_module("vlib.props." + a.prop.lower())
         if a.mode == "collect":
